@@ -289,7 +289,9 @@ pub fn dlogs(tier: Tier, seed: u64) -> Vec<N> {
     let c = consts();
     let r = &c.r;
     let g = generic(r, seed, 0xd106, 8);
-    let mut v = vec![n(1), n(2), r - n(1), r - n(2), c.lambda.clone(), n(3), g[0].clone(), negm(&g[0], r)];
+    // lambda, lambda^2 (same y, different x) and their negatives (opposite y, different x): the curve has j = 0
+    let l2 = mulm(&c.lambda, &c.lambda, r);
+    let mut v = vec![n(1), n(2), r - n(1), r - n(2), c.lambda.clone(), n(3), g[0].clone(), negm(&g[0], r), negm(&c.lambda, r), l2.clone(), negm(&l2, r)];
     if tier == Tier::Thorough {
         v.extend_from_slice(&[
             n(4),
